@@ -1,9 +1,10 @@
 /-
 Driver for C14 (PALS q-gram filter completeness).  For one case line it (1) runs the filter
-model on the C10 index model of the target, with the retirement rule regenerated from the
-source, and compares the multiset of hits with the implementation's; (2) evaluates the
-statement of C14 on the implementation's hits: every required ε-match (found by a scan of
-every diagonal) must be covered by some hit; (3) answers ok / diff / fail / known:<Kid>.
+model (`filterFrom`, on the usage history of the case: a new `*Filter`, possibly one warm-up scan)
+on the C10 index model of the target, with the retirement rule regenerated from the source, and
+compares the multiset of hits with the implementation's; (2) evaluates the
+statement of C14 on the implementation's hits: every ε-match required on the strand (`requiredC`,
+found by a scan of every diagonal) must be covered by some hit; (3) answers ok / diff / fail / known:<Kid>.
 Core-only.
 -/
 import Biogo.Go.Wire
@@ -65,22 +66,33 @@ def isK4 (c : Cfg) (qlen n : Nat) (hits : List Biogo.Spec.Filter.Hit) (a b : Nat
     hits.any fun h => h.diagonal == (c.tlen : Int) - x * c.off &&
       decide (h.from_ < (b : Int) + n) && decide ((b : Int) < h.to)
 
-def handleFl (k n e off : Nat) (self comp : Bool) (t q : List UInt8) (obs : String) : Verdict :=
+/-- `c14Warm` of the harness: FNV-1a (32 bit) of the input line, lowest bit — half of the cases run a
+    warm-up scan (the reversed query, no flags) through the same `*Filter` first -/
+def warm (inp : String) : Bool :=
+  (inp.toUTF8.foldl (fun (h : Nat) b => ((h ^^^ b.toNat) * 16777619) % 4294967296) 2166136261) % 2 == 1
+
+def handleFl (inp op : String) (k n e off : Nat) (self comp : Bool) (t q : List UInt8) (obs : String) : Verdict :=
   match Biogo.Generated.alphaDNA.build with
   | .ok (alpha, _) =>
     let lk := Biogo.Drive.C10.lookupOf alpha
     let rule := Biogo.Generated.FilterFacts.rule
     let p : Params := { minMatch := n, maxError := e, tubeOffset := off }
     let thr := minWordsPerFilterHit n k e
-    let tags0 := ["fl", s!"k={k}", s!"e={e}", sizeTag (max t.length q.length)]
-      ++ (if self then [if comp then "self-complement" else "self"] else [])
-    let inScope := thr > 0 && off ≥ e && off ≥ 1 && !(self && comp)
+    let invalid (s : List UInt8) : Bool := s.any fun b => (lk b).isNone
+    let tags0 := [op, s!"k={k}", s!"e={e}", sizeTag (max t.length q.length)]
+      ++ (if warm inp then ["after-warm-up-scan"] else [])
+      ++ (if invalid q then ["query-has-n"] else []) ++ (if invalid t then ["target-has-n"] else [])
+      ++ (if self then [if comp then "self-complement" else "self"] else (if comp then ["complement"] else []))
+    let inScope := thr > 0 && off ≥ e && off ≥ 1
     -- model
     let m := match Biogo.Kmer.new lk alpha.length k t with
       | .error err => "err:index:" ++ err.code
       | .ok ix0 =>
         let ix := Biogo.Kmer.build lk ix0
-        match filter rule lk ix p q self comp with
+        -- the usage history of the case: a new `*Filter`, for half of the cases a first scan of the
+        -- reversed query, then the scan that is observed
+        let st0 := if warm inp then (filterFrom rule lk ix p FState.new q.reverse false false).2 else FState.new
+        match (filterFrom rule lk ix p st0 q self comp).1 with
         | .error err => "err:" ++ err.code
         | .ok hs => "ok " ++ renderHits (hs.map fun h => (h.from_, h.to, h.diagonal))
     if !inScope then
@@ -96,9 +108,14 @@ def handleFl (k n e off : Nat) (self comp : Bool) (t q : List UInt8) (obs : Stri
       | none => bad "unparsable-observation"
       | some hits =>
         let tubeWidth := off + e
-        let (nreq, unc) := Biogo.Spec.Filter.uncovered lk t q n e tubeWidth self hits
+        let (nreq, unc) := Biogo.Spec.Filter.uncoveredC lk t q n e tubeWidth self comp hits
         let c := mkCfg rule k t.length p self comp
+        -- self-complement: is some ε-match on the other side of the anti-diagonal (cut, not required)?
+        let below := self && comp &&
+          (Biogo.Spec.Filter.uncoveredBy lk t q n e tubeWidth (fun a b => decide (a + b < t.length)) []).1 > 0
         let tags := tags0 ++ (if nreq == 0 then ["no-match"] else ["nt"])
+          ++ (if below then ["below-antidiagonal"] else [])
+          ++ (if self && comp && nreq > 0 then ["above-antidiagonal"] else [])
           ++ (if nreq > 50 then ["many-matches"] else [])
           ++ (if hits.isEmpty then ["no-hit"] else [])
           ++ (if off < k then ["offset<k"] else []) ++ (if off == e then ["offset=e"] else [])
@@ -113,21 +130,22 @@ def handleFl (k n e off : Nat) (self comp : Bool) (t q : List UInt8) (obs : Stri
             fail s!"{other.length} of {nreq} ε-matches uncovered (first a={a} b={b} diagIndex={t.length - a + b} tube={(t.length - a + b) / off} residue={(t.length - a + b) % off} cap={c.cap} tubeWidth={tubeWidth} threshold={thr})" tags
   | _ => fail "DNA-alphabet-rejected-by-model" ["fl"]
 
-def handleTokens (inp : List String) (obs : String) : Verdict :=
+def handleTokens (line : String) (inp : List String) (obs : String) : Verdict :=
   match inp with
-  | ["fl", k, n, e, off, self, comp, ht, hq] =>
+  | [op, k, n, e, off, self, comp, ht, hq] =>
+    if op != "fl" && op != "fln" then bad "unknown-op" else
     match parseNat k, parseNat n, parseNat e, parseNat off, parseBool self, parseBool comp, bytesOfHex ht with
     | some k, some n, some e, some off, some self, some comp, some t =>
       match (if hq == "=" then some t else bytesOfHex hq) with
-      | some q => handleFl k n e off self comp t q obs
+      | some q => handleFl line op k n e off self comp t q obs
       | none => bad "query"
     | _, _, _, _, _, _, _ => bad "fl"
   | _ => bad "unknown-op"
 
-def ops : List String := ["fl"]
+def ops : List String := ["fl", "fln"]
 
 def handle (line : String) : String :=
   let (inp, obs) := splitCase line
-  (handleTokens (tokens inp) obs).render
+  (handleTokens inp (tokens inp) obs).render
 
 end Biogo.Drive.C14
